@@ -45,8 +45,9 @@ ELEM_KIND = {"arr": "str", "arr2": "arr", "peers": "peer", "args": "any", "empty
 
 
 class Gen:
-    def __init__(self, rng, peers=3, depth=4, never=0.03):
+    def __init__(self, rng, peers=3, depth=4, never=0.03, tail_par=False):
         self.r = rng
+        self.tail_par = tail_par      # par (and folds whose body is a par) only where nothing runs afterwards
         self.peers = PEERS[:peers]
         self.depth = depth
         self.n = 0
@@ -228,23 +229,24 @@ class Gen:
             return "(seq %s %s)" % (pre, x)
         return x
 
-    def instr(self, sc, d, caught):
+    def instr(self, sc, d, caught, tail=True):
         r = self.r
         if d <= 0:
             return self.leaf(sc, caught)
-        opts = [("seq", 7), ("par", 3), ("xor", 3), ("leaf", 3), ("fold", 2), ("new", 1.5), ("match", 2)]
+        par_ok = tail or not self.tail_par
+        opts = [("seq", 7), ("par", 3 if par_ok else 0), ("xor", 3), ("leaf", 3), ("fold", 2), ("new", 1.5), ("match", 2)]
         k = r.choices([o[0] for o in opts], [o[1] for o in opts])[0]
         if k == "leaf":
             return self.leaf(sc, caught)
         if k == "seq":
-            a = self.instr(sc, d - 1, caught)
-            b = self.instr(sc, d - 1, caught)
+            a = self.instr(sc, d - 1, caught, False)
+            b = self.instr(sc, d - 1, caught, tail)
             return "(seq %s %s)" % (a, b)
         if k == "par":
             self.count("par")
             sa, sb = self.copy(sc), self.copy(sc)
-            a = self.instr(sa, d - 1, False)
-            b = self.instr(sb, d - 1, False)
+            a = self.instr(sa, d - 1, False, tail)
+            b = self.instr(sb, d - 1, False, tail)
             for src in (sa, sb):
                 for n, kk in src["vars"].items():
                     sc["vars"].setdefault(n, kk)
@@ -255,9 +257,9 @@ class Gen:
             if r.random() < 0.6:
                 left = self.failing(inner, d - 1)
             else:
-                left = self.instr(inner, d - 1, True)
+                left = self.instr(inner, d - 1, True, tail)
             rsc = self.copy(sc)
-            right = self.instr(rsc, d - 1, caught)
+            right = self.instr(rsc, d - 1, caught, tail)
             # what the left branch defined may or may not exist afterwards; sometimes it is used anyway
             # (the reading is then stuck on it exactly when the left branch failed before defining it)
             if r.random() < 0.25:
@@ -265,7 +267,7 @@ class Gen:
                     sc["vars"].setdefault(n, kk)
             return "(xor %s %s)" % (left, right)
         if k == "fold":
-            return self.fold(sc, d, caught)
+            return self.fold(sc, d, caught, tail)
         if k == "new":
             self.count("new")
             vis = [n for n in sc["vars"] if n not in sc["news"]]
@@ -285,18 +287,22 @@ class Gen:
             # v stays in `news` for the whole body: a read of v counts as fallible there (SeqFrag.value_fallible)
             first = '(call %s ("s" "tag") [] %s)' % (self.peer_lit(), v)
             inner["vars"][v] = "str"
-            body = self.instr(inner, d - 1, caught)
+            body = self.instr(inner, d - 1, caught, tail)
             for n, kk in inner["vars"].items():
                 if n != v:
                     sc["vars"].setdefault(n, kk)
-            if pre:
-                return "(new %s (seq %s(seq %s %s)))" % (v, pre, first, body)
-            return "(new %s (seq %s %s))" % (v, first, body)
+            text = "(new %s (seq %s(seq %s %s)))" % (v, pre, first, body) if pre else "(new %s (seq %s %s))" % (v, first, body)
+            if v in sc["vars"] and r.random() < 0.6 and (not self.tail_par or not tail or "(par" not in text):
+                # the outer value is back after the scope
+                self.count("read of a shadowed scalar after its new")
+                return "(seq %s (call %s (\"s\" \"args\") [%s]))" % (text, self.peer_lit(), v)
+            return text
         if k == "match":
             self.count("match")
             xs = self.names(sc)
             lits = ['"a"', '"b"', "1", "true", "false", "[]", "1.5", "%init_peer_id%", '"tag@A"', '"tag@B"']
-            a = r.choice(xs) if xs and r.random() < 0.85 else r.choice(lits)
+            typed = self.names(sc, ("num", "float", "bool", "empty", "nil", "str", "peer"))
+            a = r.choice(typed) if typed and r.random() < 0.6 else (r.choice(xs) if xs and r.random() < 0.85 else r.choice(lits))
             ka = sc["vars"].get(a, sc["iters"].get(a))
             same = {"num": ["1", "2"], "float": ["1.5", "1"], "bool": ["true", "false"], "empty": ["[]"], "str": ['"a"', '"tag@A"', '"x"'],
                     "peer": [self.peer_lit()], "any": ['"a"', "1"], "nil": ["[]", '"a"']}.get(ka, lits)
@@ -305,15 +311,15 @@ class Gen:
                 pass
             kw = r.choice(["match", "match", "mismatch"])
             inner = self.copy(sc)
-            body = self.instr(inner, d - 1, True if not caught else caught)
+            body = self.instr(inner, d - 1, True, tail)
             m = "(%s %s %s %s)" % (kw, a, b, body)
             if caught and r.random() < 0.5:
                 return m
             hsc = self.copy(sc)
-            return "(xor %s %s)" % (m, self.instr(hsc, max(d - 2, 0), caught))
+            return "(xor %s %s)" % (m, self.instr(hsc, max(d - 2, 0), caught, tail))
         return self.leaf(sc, caught)
 
-    def fold(self, sc, d, caught):
+    def fold(self, sc, d, caught, tail=True):
         r = self.r
         self.count("fold")
         cands = []
@@ -340,11 +346,12 @@ class Gen:
         it = self.fresh("i")
         inner = self.copy(sc)
         inner["iters"][it] = ek
-        shape = r.choice(["seq", "seq", "par", "seq_first", "par_first"])
+        shape = r.choice(["seq", "seq", "par", "seq_first", "par_first"] if (tail or not self.tail_par) else ["seq", "seq", "seq_first"])
         self.count("fold shape " + shape)
         in_par = shape.startswith("par")
         body_caught = False if in_par else True      # the fold itself is placed under an xor below when needed
-        body = self.instr(inner, d - 1, body_caught)
+        outer = self.copy(inner)        # what the last instruction may read: not what the body defines
+        body = self.instr(inner, d - 1, body_caught, tail and in_par)
         b = {"seq": "(seq %s (next %s))", "par": "(par %s (next %s))"}.get(shape)
         if b:
             b = b % (body, it)
@@ -355,7 +362,7 @@ class Gen:
         last = ""
         if r.random() < 0.25:
             self.count("fold with last instruction")
-            last = " " + self.call(self.copy(inner), body_caught, bind=False)
+            last = " " + self.call(self.copy(inner if shape == "seq" else outer), body_caught, bind=False)
         f = "(fold %s %s %s%s)" % (src, it, b, last)
         if src == "[]" and in_par:
             text = f                   # cannot fail at all
@@ -371,8 +378,8 @@ class Gen:
         return self.instr(sc, self.depth, False)
 
 
-def gen_script(rng, peers=3, depth=4, never=0.03):
-    g = Gen(rng, peers, depth, never)
+def gen_script(rng, peers=3, depth=4, never=0.03, tail_par=False):
+    g = Gen(rng, peers, depth, never, tail_par)
     return g.script(), g.stats
 
 
